@@ -5,6 +5,8 @@ from vf import sched
 sched.install()  # before eliot is imported (part 'threads' runs under the line-granular scheduler)
 
 import copy
+
+import eliot  # noqa: E402 (after sched.install())
 import itertools
 import random
 
@@ -93,6 +95,10 @@ def unchanged(o, snap):
     return json_equal(o, deep) and now == ids
 
 
+class ValidationErrorOneArg(eliot.ValidationError):
+    """eliot.ValidationError, the class the Field documentation tells serializers to raise for bad input."""
+
+
 class OverridingField(Field):
     """Field subclass overriding serialize(): the override wraps the output of the counted serializer function."""
 
@@ -178,7 +184,8 @@ def one(seed, i, has_globals, gfields, res, templates=()):
     state["failing"] = failing
     # any Exception subclass may come out of a serializer, including ones that iteration protocols treat specially
     state["exc_class"] = rng.choice([excs.SerFault, StopIteration, StopAsyncIteration, KeyError, IndexError, ValueError, TypeError, RuntimeError,
-                                     AssertionError, AttributeError, LookupError, ArithmeticError, excs.BadStr, RecursionError, NotImplementedError])
+                                     AssertionError, AttributeError, LookupError, ArithmeticError, excs.BadStr, RecursionError, NotImplementedError,
+                                     ValidationErrorOneArg, ValidationErrorOneArg])
     state["shared_exc"] = None
     if rng.random() < 0.3:
         # a stored exception object (a failed Future's result(), a pre-built module-level error) raised again and again
@@ -450,7 +457,13 @@ def part_threads(spec, res):
     sched.instrument([_validation, _output])
     nthreads = rng.choice([2, 2, 3])
     nmsg = rng.choice([1, 2])
-    T = MessageType("c13:thr", [Field("a", lambda v: {"v": v}, ""), Field("b", lambda v: [v], ""), Field.for_types("t", [int], ""), Field("z", str, "")], "")
+    failing = spec["i"] % 3 == 2  # every call's serialization fails: each failure is reported on its own, whoever else is reporting at the time
+
+    def z_ser(v):
+        if failing:
+            raise KeyError("serializer of z fails for %r" % (v,))
+        return str(v)
+    T = MessageType("c13:thr", [Field("a", lambda v: {"v": v}, ""), Field("b", lambda v: [v], ""), Field.for_types("t", [int], ""), Field("z", z_ser, "")], "")
     names = ["T%d" % t for t in range(nthreads)]
     c = res["counters"]
 
@@ -477,7 +490,15 @@ def part_threads(spec, res):
             res["inconclusive"] = "schedule abandoned: %s" % st["aborted"]
             return st
         msgs = [m for m in tape.msgs("rec") if m.get("message_type") == "c13:thr"]
-        if len(msgs) != nthreads * nmsg:
+        if failing:
+            ntb = sum(1 for m in tape.msgs("rec") if m.get("message_type") == "eliot:traceback")
+            nsf = sum(1 for m in tape.msgs("rec") if m.get("message_type") == "eliot:serialization_failure")
+            c["concurrent_serialization_failures"] = c.get("concurrent_serialization_failures", 0) + nsf
+            if msgs or ntb != nthreads * nmsg or nsf != nthreads * nmsg:
+                problems.append("%d logging calls whose serializer failed, from %d threads: %d messages delivered, %d eliot:traceback and %d eliot:serialization_failure" % (
+                    nthreads * nmsg, nthreads, len(msgs), ntb, nsf))
+            msgs = []
+        elif len(msgs) != nthreads * nmsg:
             problems.append("%d typed messages delivered, %d logged (other messages: %s)" % (len(msgs), nthreads * nmsg,
                             [m.get("message_type") for m in tape.msgs("rec") if m.get("message_type") != "c13:thr"][:4]))
         seen = set()
@@ -490,7 +511,7 @@ def part_threads(spec, res):
                     {k: m.get(k) for k in ("a", "b", "t", "z")},))
                 break
             seen.add((t, m["a"]["v"][2]))
-        if not problems and len(seen) != nthreads * nmsg:
+        if not problems and not failing and len(seen) != nthreads * nmsg:
             problems.append("some message was delivered twice / another lost: %s" % sorted(seen))
         res["sets"]["interleavings"].append(sched.trace_hash(st))
         for nm, k, loc in st["fired"]:
